@@ -390,7 +390,7 @@ Proof.
                  && (Z.to_N (invokeNum s - 1) <=? started a - retd_at_post (aget a i) - 1)
                  && (N.of_nat (length (resp s)) <=? started a - retd_at_post (aget a i) - 1)) = true) by lia.
     cbn [arun astep]. rewrite Gp. cbv zeta. cbn [queueLen invokeNum resp]. change (k_out (set_ret c0 (now s))) with (k_out c0). rewrite Ho, Hokc. cbn [andb].
-    assert (Hnr : nret (mkst (now s) (upd (calls s) i (set_ret c0 (now s))) (rcvs s) (queueLen s) (invokeNum s - 1)%Z (resp s) (conn_open s) (lock s) (sendq s) (wire s) (sent s)) = (nret s + 1)%Z).
+    assert (Hnr : nret (mkst (now s) (upd (calls s) i (set_ret c0 (now s))) (rcvs s) (queueLen s) (invokeNum s - 1)%Z (resp s) (conn_open s) (lock s) (sendq s) (wire s) (sent s) (tr s)) = (nret s + 1)%Z).
     { nret_new Heqo. cbn. reflexivity. }
     destruct o as [p| | |]; cbn [cls_of].
     + (* reply *)
@@ -449,7 +449,10 @@ Proof.
         end end).
   - (* LGiveUp *)
     inv_step H; (exists a; split; [reflexivity|]; eapply Sim_frame; eauto).
+  - (* LIdleClose *)
+    inv_step H; (exists a; split; [reflexivity|]; eapply Sim_frame; eauto).
 Qed.
+
 
 Lemma sim_run : forall c ls s a s', reach c s -> Sim s a -> run c s ls = Some s' ->
   exists a', arun a (project c s ls) = Some a' /\ Sim s' a'.
